@@ -61,6 +61,18 @@ theorem length_takeWhile_add_dropWhile {α} (p : α → Bool) (l : List α) :
     (l.takeWhile p).length + (l.dropWhile p).length = l.length := by
   rw [← List.length_append, List.takeWhile_append_dropWhile]
 
+theorem mem_takeWhile {α} (p : α → Bool) (l : List α) (x : α) (h : x ∈ l.takeWhile p) : p x = true := by
+  induction l with
+  | nil => simp at h
+  | cons a t ih =>
+    simp only [List.takeWhile_cons] at h
+    split at h
+    · rename_i ha
+      rcases List.mem_cons.mp h with rfl | h'
+      · exact ha
+      · exact ih h'
+    · simp at h
+
 theorem replicate_all {α} (n : Nat) (a : α) (p : α → Bool) (h : p a = true) :
     ∀ x ∈ List.replicate n a, p x = true := by
   intro x hx
